@@ -17,13 +17,19 @@ type PropSpec struct {
 var properties = map[string]PropSpec{
 	"C03": {
 		Level: "other",
-		Explanation: "wip",
-		NotDecided: "wip",
+		Explanation: "An inductive-invariant argument, checked on the SSA of the whole package. INV-CAP: for every slice header a stack object ever holds, cap == 0 or len(header) <= cap, where cap is the capacity word of the configuration in slot 0 (Len() == len-1, Cap() == cap-1, so Len() <= k). Base (R-CAPEQ newStack): the word is requested+1 for a positive request, 0 otherwise, and the empty backing array is made with that capacity. Frame (R-CAPW, R-SLOT0): the word is written nowhere else; slot 0 keeps holding the same configuration - every header store derives its value from the object's own header by re-slicing from 0 with high >= 1, appending to a non-empty header, or rebuilding from its own configuration; element stores and bulk copies through a header use a slot >= 1 (interprocedural bounds census restricted to those sites); by-value stack arguments are loaded headers. Step (R-CAP): every store of a header anywhere in the package (push loops, Insert, Pop, Remove, Reset, Defrag - hence also Transfer-into and Marshal-into, which only grow through push) is proved, on every path state, to keep the invariant: Fourier-Motzkin entailment of len(new) <= cap from the path's guards (isFull()==false evaluated on the very header being extended, Insert's capacity guard), assuming the invariant for the headers read so far. Observers (R-CAPEQ): the return cases of Len, Cap, Avail, IsFull and isFull are proved equal to len-1, cap-1 / -1, cap-len / -1 and (cap != 0 and len == cap), i.e. Cap()==k, Avail()==k-Len(), IsFull()==(Len()==k), and -1/-1/never full without a capacity.",
+		NotDecided: "which of the offered values are kept ('the earliest-offered ones in order') - a statement about the resulting sequence (C01's undecided part); concurrent histories (C10). One re-slice (Defrag's truncation) inherits the range assumption recorded for C08. The invariant is about headers stored by the package: a capacity request so large that make() fails panics in the constructor and creates no stack.",
 		Run: func(c *Ctx) {
 			c.ruleInv()
 			c.ruleSlot0()
 			c.ruleCapW()
 			c.ruleCapInv()
+			c.ruleCapEq()
+			c.rep.floor("R-SLOT0", 12)
+			c.rep.floor("R-CAP", 10)
+			c.rep.floor("R-CAPEQ", 6)
+			c.rep.floor("R-CAPW", 1)
+			c.rep.floor("R-BND", 3)
 		},
 	},
 	"C08": {
